@@ -421,6 +421,7 @@ class TheJoker:
         mcmc_init : dict
 
         """
+        import astropy.units as u
         import pymc as pm
         import pytensor.tensor as pt
 
@@ -464,9 +465,17 @@ class TheJoker:
 
         p = self.prior.pars
 
+        # The model is built in the units of the data (days, radians, the
+        # data's velocity unit); the priors may be declared in any
+        # equivalent units
+        rv_unit = data.rv.unit
+        P_day = xu.to_unit(p["P"], u.day)
+        M0_rad = xu.to_unit(p["M0"], u.radian)
+        omega_rad = xu.to_unit(p["omega"], u.radian)
+
         if "t_peri" not in model.named_vars:
             with model:
-                pm.Deterministic("t_peri", p["P"] * p["M0"] / (2 * np.pi))
+                pm.Deterministic("t_peri", P_day * M0_rad / (2 * np.pi))
 
         if "obs" in model.named_vars:
             return mcmc_init
@@ -474,9 +483,9 @@ class TheJoker:
         with model:
             # Set up the orbit model
             orbit = KeplerianOrbit(
-                period=p["P"],
+                period=P_day,
                 ecc=p["e"],
-                omega=p["omega"],
+                omega=omega_rad,
                 t_periastron=model.named_vars["t_peri"],
             )
 
@@ -489,17 +498,23 @@ class TheJoker:
 
         with model:
             v_pars = (
-                [p["v0"]]
-                + [p[name] for name in offset_names]
-                + [p[name] for name in vtrend_names[1:]]
+                [xu.to_unit(p["v0"], rv_unit)]
+                + [xu.to_unit(p[name], rv_unit) for name in offset_names]
+                + [
+                    xu.to_unit(p[name], rv_unit / u.day**i)
+                    for i, name in enumerate(vtrend_names)
+                    if i > 0
+                ]
             )  # skip v0
             v_trend_vec = pt.stack(v_pars, axis=0)
             trend = pt.dot(M, v_trend_vec)
 
-            rv_model = orbit.get_radial_velocity(x, K=p["K"]) + trend
+            rv_model = (
+                orbit.get_radial_velocity(x, K=xu.to_unit(p["K"], rv_unit)) + trend
+            )
             pm.Deterministic("model_rv", rv_model)
 
-            err = pt.sqrt(err**2 + p["s"] ** 2)
+            err = pt.sqrt(err**2 + xu.to_unit(p["s"], rv_unit) ** 2)
             pm.Normal("obs", mu=rv_model, sigma=err, observed=y)
 
             pm.Deterministic("logp", model.logp())
